@@ -180,8 +180,7 @@ func RunBaseLeecherScenario(sc *BaseScenario, scen int, log *scenLog, stats map[
 			}
 			d.UnregisterPeer(st.P)
 			log.emit(rec{"op": "unregistered", "p": st.P})
-		case "tick":
-			log.emit(rec{"op": "tick"})
+		case "tick": // (no line of its own: the callbacks it causes are logged; the script is in the reset line)
 			if terminated {
 				stats["tick_after_terminate"]++
 			}
@@ -190,7 +189,6 @@ func RunBaseLeecherScenario(sc *BaseScenario, scen int, log *scenLog, stats map[
 			d.Mu.Unlock()
 		case "should":
 			should = !should
-			log.emit(rec{"op": "should", "b": should})
 		case "terminate":
 			log.emit(rec{"op": "terminate"})
 			d.Terminate()
